@@ -702,8 +702,10 @@ class VBSClusteringManager:
                 "clusterCardinalitySize": self._cluster.cardinality,
             }
             if self._cluster.profiles:
-                cluster_info["clusterProfiles"] = self._encode_cluster_profiles(
-                    self._cluster.profiles
+                # BIT STRING (SIZE(4)): the coder expects (bytes, number of bits)
+                cluster_info["clusterProfiles"] = (
+                    self._encode_cluster_profiles(self._cluster.profiles),
+                    4,
                 )
 
             return {"vruClusterInformation": cluster_info}
